@@ -26,7 +26,7 @@ ASSUMPTIONS = [
     "depend on digits beyond double precision",
     "fail-fast rejection = any MetapypeRuleError; collecting rejection = non-empty list of well-formed entries",
 ]
-REQUIRED = ["validations_on_long_lived_node", "childless_judged_right_after_same_content_with_children", "accept_agree", "reject_agree", "failfast_calls", "collecting_calls"]
+REQUIRED = ["coordinate_anchor_cases", "validations_on_long_lived_node", "childless_judged_right_after_same_content_with_children", "accept_agree", "reject_agree", "failfast_calls", "collecting_calls"]
 EXHAUSTIVE = {"quick": False, "thorough": False}
 
 CONTENT_CODES_PREFIX = ("CONTENT_", "STR_CONTENT", "UNKNOWN_CONTENT_RULE")
@@ -174,7 +174,40 @@ def _kinds(parts):
     return "+".join(sorted(parts))
 
 
+def coordinate_anchors(ctx):
+    """The statement names two ranged types by what they mean: longitudes lie in [-180,180], latitudes in [-90,90].  Which elements
+    are which is said by their names: north/south bounding coordinates are latitudes, west/east ones longitudes.  (The only place
+    where the check reads meaning off an element name instead of off the tables.)"""
+    for element, lat in (("northBoundingCoordinate", True), ("southBoundingCoordinate", True), ("westBoundingCoordinate", False),
+                         ("eastBoundingCoordinate", False)):
+        if element not in emlkit.mrule.node_mappings:
+            continue
+        for v, exp_lat, exp_lon in (("45", C.ACCEPT, C.ACCEPT), ("-90", C.ACCEPT, C.ACCEPT), ("95", C.REJECT, C.ACCEPT), ("-95.5", C.REJECT, C.ACCEPT),
+                                    ("180", C.REJECT, C.ACCEPT), ("-180.5", C.REJECT, C.REJECT), ("185", C.REJECT, C.REJECT)):
+            exp = exp_lat if lat else exp_lon
+            got = []
+            for mode in ("failfast", "collecting"):
+                n = emlkit.Node(element, content=v)
+                errs = None if mode == "failfast" else []
+                try:
+                    emlkit.mvalidate.node(n) if errs is None else emlkit.mvalidate.node(n, errs)
+                    got.append(C.ACCEPT if not errs else C.REJECT)
+                except emlkit.mexc.MetapypeRuleError:
+                    got.append(C.REJECT)
+                except Exception as e:
+                    got.append(f"crash:{type(e).__name__}")
+                emlkit.discard(n)
+            ctx.evaluated(2)
+            ctx.count("coordinate_anchor_cases")
+            if got != [exp, exp]:
+                ctx.violation(f"coordinate-element-on-wrong-axis:{element}", f"<{element}> with content {v!r}: a {'latitude' if lat else 'longitude'} "
+                                                                            f"must be {exp}ed, validation gave {got}", {"coordinate_anchor": element})
+                break
+
+
 def run(ctx, params):
+    if params["rules"] and params["rules"][0] == emlkit.rule_names()[0]:
+        coordinate_anchors(ctx)
     seen_sig = {}
     for rule_name in params["rules"]:
         spec = emlkit.rules_table()[rule_name][2]
@@ -252,6 +285,11 @@ def finish(merged):
 
 
 def replay(ctx, witness):
+    if "coordinate_anchor" in witness:
+        coordinate_anchors(ctx)
+        ctx.distinct(1)
+        ctx.distinct(2)
+        return
     if "previous_content_of_the_same_node" in witness:
         observe(witness["rule"], witness["element"], witness["children"], witness["previous_content_of_the_same_node"], reuse=True)
     if witness.get("after_the_same_content_with_children"):
